@@ -156,7 +156,7 @@ class _SeededRandomSource:
         return {"kind": "seeded", "seed": rng.randint(0, 10 ** 6), "nflows": rng.randint(1, 3),
                 "loss": rng.choice([0.1, 0.3, 0.5]), "split": rng.random() < 0.5, "until": rng.choice([40, 80, 150])}
 
-    def run_impl(self, case):
+    def _once(self, case, split):
         import random
         from onl.sim import Environment
         from onl.packet import DistPacketGenerator, PacketSink
@@ -164,30 +164,65 @@ class _SeededRandomSource:
         from onl.netdev.port import Port
         from onl.netdev.red_port import REDPort
         from onl.netdev.demux import RandomDemux
+        from onl.netdev.port_monitor import PortMonitor
+        from onl.scheduler import WFQ
+        from onl.scheduler.monitor import Monitor
+        random.seed(case["seed"])
+        env = Environment()
+        T = case["until"]
+        sink = PacketSink(env, rec_flow_ids=True)
+        sched = WFQ(env, 32000.0, {f: 1 + f for f in range(case["nflows"])})
+        sched.out = sink
+        port = Port(env, 8000.0, None, False, "p")
+        port.out = sched
+        red = REDPort(env, 16000.0, 8, 2, 0.5, "r", 12)
+        red.out = port
+        wires = [Wire(env, lambda: random.uniform(0.1, 0.5), loss_rate=case["loss"], wire_id=i) for i in range(2)]
+        for w in wires:
+            w.out = red
+        entry = RandomDemux(wires, [0.5, 0.5]) if case["split"] else wires[0]
+        gens = []
+        for f in range(case["nflows"]):
+            g = DistPacketGenerator(env, "g%d" % f, lambda: random.expovariate(2.0), lambda: random.randint(40, 1500),
+                                    flow_id=f, finish=T * 0.5)
+            g.out = entry
+            gens.append(g)
+        # periodic samplers: the traffic ends at T/2, they must keep sampling to T whatever the stop points are
+        # ONE sampler per scenario (so that, once the traffic has ended, it is the only activity left)
+        pmon = smon = None
+        if case["seed"] % 2:
+            pmon = PortMonitor(env, port, lambda: 1.0)
+            if not hasattr(pmon, "action"):
+                pmon.action = env.process(pmon.run())
+        else:
+            smon = Monitor(env, sched, lambda: 1.5)
+        marker = env.timeout(T * 0.7)           # exists in every execution; only the split plan stops at it
+        if not split:
+            env.run(until=T)
+        else:                                   # the same program, stopped and resumed: number, steps, event, steps, number
+            env.run(until=T * 0.25)
+            for _ in range(7):
+                env.step()
+            env.run(until=marker)
+            while env.peek() < T * 0.85:
+                env.step()
+            env.run(until=T)
+        return {"arrivals": {str(k): [repr(x) for x in v] for k, v in sorted(sink.arrivals.items())},
+                "waits": {str(k): [repr(x) for x in v] for k, v in sorted(sink.waits.items())},
+                "sent": [g.packets_send for g in gens], "wire_rec": [w.packets_rec for w in wires],
+                "red": [red.packets_received, red.packets_dropped], "now": repr(float(env.now)),
+                "port_samples": [list(pmon.sizes), list(pmon.sizes_byte)] if pmon else None,
+                "sched_samples": {str(k): list(v) for k, v in sorted(smon.sizes.items())} if smon else None}
+
+    def run_impl(self, case):
+        import random
         keep = random.getstate()
         try:
-            random.seed(case["seed"])
-            env = Environment()
-            sink = PacketSink(env, rec_flow_ids=True)
-            port = Port(env, 8000.0, None, False, "p")
-            port.out = sink
-            red = REDPort(env, 16000.0, 8, 2, 0.5, "r", 12)
-            red.out = port
-            wires = [Wire(env, lambda: random.uniform(0.1, 0.5), loss_rate=case["loss"], wire_id=i) for i in range(2)]
-            for w in wires:
-                w.out = red
-            entry = RandomDemux(wires, [0.5, 0.5]) if case["split"] else wires[0]
-            gens = []
-            for f in range(case["nflows"]):
-                g = DistPacketGenerator(env, "g%d" % f, lambda: random.expovariate(2.0), lambda: random.randint(40, 1500),
-                                        flow_id=f, finish=case["until"] * 0.6)
-                g.out = entry
-                gens.append(g)
-            env.run(until=case["until"])
-            return {"arrivals": {str(k): [repr(x) for x in v] for k, v in sorted(sink.arrivals.items())},
-                    "waits": {str(k): [repr(x) for x in v] for k, v in sorted(sink.waits.items())},
-                    "sent": [g.packets_send for g in gens], "wire_rec": [w.packets_rec for w in wires],
-                    "red": [red.packets_received, red.packets_dropped], "now": repr(env.now)}
+            free = self._once(case, False)
+            split = self._once(case, True)
+            diff = [k for k in free if free[k] != split[k]]
+            return {"free": free, "split_differs_in": diff,
+                    "split_detail": {k: [str(free[k])[:160], str(split[k])[:160]] for k in diff[:3]}}
         finally:
             random.setstate(keep)
 
@@ -844,6 +879,8 @@ class C03(Prop):
         return bundle_of(rng, kc.gen_case(rng, KNOBS))
 
     def run_impl(self, case):
+        if case.get("kind") == "netsplit":
+            return net_parts()["seeded"].run_impl(case["case"])
         if case.get("kind") == "netrepro":
             # reference first (fresh interpreter, the case alone), then: truncated runs in THIS process, then the case again
             ref = net_reference([[case["part"], case["case"]]], case.get("seed", 1))[0]
@@ -885,6 +922,12 @@ class C03(Prop):
 
     # ---- the property, as an oracle over what the implementation did -----------------------------------
     def monitor(self, case, obs):
+        if case.get("kind") == "netsplit":
+            if obs["split_differs_in"]:
+                return [f"network-split-not-transparent: the seeded network scenario {json.dumps(case['case'])} executed as run(until=T/4), 7 x step(), "
+                        f"run(until=event), step() ..., run(until=T) differs from the single run(until=T) in {obs['split_differs_in']}: "
+                        f"{json.dumps(obs['split_detail'])[:400]}"]
+            return []
         if case.get("kind") == "netrepro":
             for i, d in enumerate(obs["digests"]):
                 if d != obs["ref"]:
@@ -1052,6 +1095,18 @@ class C03(Prop):
                 items.append((name, cases[i], pol, ks))
         refs = {s: net_reference([[p, c] for p, c, _, _ in items], s) for s in seeds}
         violations, bad, errs = [], 0, 0
+        nsplit = 0
+        for name, c, _, _ in items:            # stopping and resuming a NETWORK scenario must be invisible too
+            if name != "seeded":
+                continue
+            nsplit += 1
+            try:
+                o = parts[name].run_impl(c)
+            except BaseException as e:
+                o = {"free": None, "split_differs_in": ["error:" + type(e).__name__], "split_detail": {}}
+            if o["split_differs_in"]:
+                case = {"kind": "netsplit", "case": c, "_noshrink": True}
+                violations.append((case, o, self.monitor(case, o)[0]))
         for i, (name, c, pol, ks) in enumerate(items):
             ds = net_rounds(name, c, pol, ks)
             if all(d.startswith("error:") for d in ds) and all(refs[s][i] == ds[0] for s in seeds):
@@ -1065,7 +1120,8 @@ class C03(Prop):
                 violations.append((case, obs, (self.monitor(case, obs) or ["network-not-reproducible: fresh interpreters disagree"])[0]))
         stats = {"network_rerun_parts": sorted(parts), "network_rerun_parts_skipped": list(_NET.get("skipped", [])),
                  "network_rerun_cases": len(items), "network_rerun_truncated_runs": sum(len(x[2]) for x in items),
-                 "network_rerun_hashseeds": seeds, "network_rerun_harness_errors": errs, "network_rerun_differences": bad}
+                 "network_rerun_hashseeds": seeds, "network_rerun_harness_errors": errs, "network_rerun_differences": bad,
+                 "network_split_plans_compared": nsplit}
         return violations[:2], stats
 
     def _hashseed_checks(self, rng, tier):
